@@ -131,9 +131,9 @@ type handlerRec struct {
 }
 
 // makeHandler: read all requests, call SetSendCompressor as scripted, send the responses.
-func makeHandler(h *handlerRec, s srvCfg, rsp [][]byte, wg *sync.WaitGroup) grpc.StreamHandler {
+func makeHandler(h *handlerRec, s srvCfg, rsp [][]byte, wg *msgfix.Group) grpc.StreamHandler {
 	return func(_ any, ss grpc.ServerStream) error {
-		wg.Add(1)
+		wg.Add()
 		defer wg.Done()
 		h.mu.Lock()
 		h.invoked = true
@@ -371,7 +371,7 @@ type clientRec struct {
 func runPair(sc pairSc) (*msgfix.Findings, string) {
 	f := msgfix.NewFindings()
 	h := &handlerRec{}
-	var hwg sync.WaitGroup
+	var hwg msgfix.Group // not sync.WaitGroup: see msgfix.Group
 	rspMsgs := payloads(sc.Tag^0x9e3779b9, sc.Rsp, sc.PK)
 	reqMsgs := payloads(sc.Tag, sc.Req, sc.PK)
 	p, err := msgfix.NewPair(makeHandler(h, sc.S, rspMsgs, &hwg), sc.S.serverOpts(), sc.C.dialOpts())
@@ -381,8 +381,8 @@ func runPair(sc pairSc) (*msgfix.Findings, string) {
 	}
 	cl := &clientRec{}
 	ctx, cancel := context.WithCancel(context.Background())
-	var wg sync.WaitGroup
-	wg.Add(1)
+	var wg msgfix.Group
+	wg.Add()
 	go func() {
 		defer wg.Done()
 		st, err := p.CC.NewStream(ctx, &grpc.StreamDesc{ClientStreams: true, ServerStreams: true}, "/verif.Comp/Call", sc.C.callOpts()...)
@@ -553,7 +553,7 @@ func div() int {
 func TestVerifC27(t *testing.T) {
 	r := vlib.Start(t, "C27")
 	if famOK("pair") {
-		n := r.N(900, 18000) / div()
+		n := r.N(900, 9000) / div()
 		for i := 0; i < n; i++ {
 			if !r.Want("pair", i) {
 				continue
